@@ -10,13 +10,21 @@ mod util;
 fn main() {
     let args = util::Args::parse();
     util::quiet_panics();
-    let n = match args.driver.as_str() {
-        "registry" => drivers::registry::main(&args),
-        "populations" => drivers::populations::main(&args),
+    let n = std::panic::catch_unwind(std::panic::AssertUnwindSafe(|| run(&args))).unwrap_or_else(|_| {
+        eprintln!("harness panic: {}", util::LAST_PANIC.lock().map(|g| g.clone()).unwrap_or_default());
+        std::process::exit(101)
+    });
+    println!("{{\"events\":{n}}}");
+}
+
+fn run(args: &util::Args) -> usize {
+    match args.driver.as_str() {
+        "registry" => drivers::registry::main(args),
+        "borrow" => drivers::borrow::main(args),
+        "populations" => drivers::populations::main(args),
         other => {
             eprintln!("unknown driver {other}");
             std::process::exit(2)
         }
-    };
-    println!("{{\"events\":{n}}}");
+    }
 }
